@@ -180,7 +180,9 @@ impl Drop for LogSuppressLock {
         let _v = crate::verif_hooks::rw("CURRENT_LOG", true);
         let mut lock = CURRENT_LOG.write().unwrap();
         if let Some(log) = lock.as_mut() {
-            log.suppress_count -= 1;
+            // The session this lock was taken in may have been finished and another one
+            // started meanwhile (by another thread): never take the count below zero.
+            log.suppress_count = log.suppress_count.saturating_sub(1);
         }
     }
 }
